@@ -213,6 +213,22 @@ where
     }
 }
 
+fn direct_len(c: &Codes, v: u64) -> usize {
+    match c {
+        Codes::Unary => v as usize + 1,
+        Codes::Gamma => len_gamma(v),
+        Codes::Delta => len_delta(v),
+        Codes::Omega => len_omega(v),
+        Codes::VByteLe | Codes::VByteBe => bit_len_vbyte(v),
+        Codes::Zeta { k } => len_zeta(v, *k),
+        Codes::Pi { k } => len_pi(v, *k),
+        Codes::Golomb { b } => len_golomb(v, *b as u64),
+        Codes::ExpGolomb { k } => len_exp_golomb(v, *k),
+        Codes::Rice { log2_b } => len_rice(v, *log2_b),
+        _ => panic!("unknown variant"),
+    }
+}
+
 macro_rules! with_const {
     ($id:expr, $c:ident, $body:expr) => {
         seq_macro_consts!($id, $c, $body, 0 1 2 3 4 5 6 7 8 9 10 11 12 13 14 15 16 17 18 19 20 21 22 23 24 25
@@ -266,6 +282,7 @@ fn $name(op: &Group) -> Group {
                     let sw = CodesStatsWrapper::<Codes>::new(code);
                     <CodesStatsWrapper<Codes> as DynamicCodeWrite>::write(&sw, &mut w, v).unwrap()
                 }
+                5 => direct_write::<E>(&mut w, &code, v),
                 _ => panic!("no write dispatcher of this kind"),
             };
             BitWrite::flush(&mut w).unwrap();
@@ -335,6 +352,7 @@ fn $name(op: &Group) -> Group {
                     Ok(f) => f.len(v),
                     Err(_) => return vec![1],
                 },
+                5 => direct_len(&code, v),
                 _ => panic!("no len dispatcher of this kind"),
             };
             vec![ST_OK, l as u128]
